@@ -89,7 +89,9 @@ def selectors(draw: Any, g: dict[str, Any], bound: list[str], depth: int = 2) ->
     base: list[Any]
     if bound and draw(st.integers(0, 1)) == 0:
         b = draw(st.sampled_from(bound))
-        base = ["nt", b[1:-1]] if b.startswith("<") else ["var", b]
+        if not b.startswith("<"):
+            return ["var", b]  # python variables take no selector operators
+        base = ["nt", b[1:-1]]
         cur = None  # unknown symbol behind a bound name
     else:
         cur = draw(st.sampled_from(syms))
@@ -203,8 +205,11 @@ def formulas(draw: Any, g: dict[str, Any], bound: list[str], depth: int, shared_
     a quantifier under and/or is read by Fandango as one python expression whose selectors
     are searched before the comprehension runs - a corner the documentation does not cover."""
     if depth > 0 and draw(st.integers(0, 2)) > 0:
-        q = draw(st.sampled_from(["forall", "exists", "all", "any"]))
-        name = f"<k{len(bound)}>" if q in ("forall", "exists") or draw(st.booleans()) else f"v{len(bound)}"
+        style = "inline" if any(not b.startswith("<") for b in bound) or (bound and bound[-1].endswith("i>")) else (
+            "old" if bound else draw(st.sampled_from(["old", "inline"])))
+        q = draw(st.sampled_from(["forall", "exists"] if style == "old" else ["all", "any"]))
+        # an old-style quantifier cannot be nested in an in-line one (syntax); names ending in i> mark in-line binders
+        name = f"<k{len(bound)}>" if style == "old" else (f"<k{len(bound)}i>" if draw(st.booleans()) else f"v{len(bound)}")
         sel = draw(selectors(g, [b for b in bound if b.startswith("<")], 1))
         body = draw(formulas(g, bound + [name], depth - 1, shared_or))
         return [q, name, sel, body]
